@@ -17,6 +17,28 @@ CHECKS = {
             "Counter-examples are replayed concretely on the unmodified public API before being reported.",
             "z3; scratch file system; uuid4 distinctness; bounds: <=10 writes/session quick, <=16 thorough; fb writer only",
             "DESIGN.md 3/C10"),
+    "C11": ("symx",
+            "bounded symbolic execution of the real filler with z3 (E unbounded; metadata/aliasing sequences solver-forked)",
+            "Every metadata sequence within the bounds (absent/A/B/C, fresh or in-place-mutated object, nested mutation) and every "
+            "examples_per_shard value is covered; the label of the shard holding each labelled example is proved equal to the "
+            "harness's own copy of the value at write time; shard_filter selection is run through the real reader.",
+            "z3; bounds: <=4 writes quick, <=6 thorough; fb writer; retroactive labelling of unlabelled examples is allowed",
+            "DESIGN.md 3/C11"),
+    "C12": ("symx",
+            "bounded symbolic execution of shard_paths_dataset and every iteration interface with z3 (symbolic predicate bits, k, limit)",
+            "For every interface (numpy, concurrent, async, rust, tfdataset in both branches, tfrec decoders stubbed) the examples "
+            "reaching the consumer are proved equal to the reference selection for all predicate outcomes and all k / per-metadata "
+            "limits within the bounds; empty selections must raise.",
+            "z3; <=4 shards quick / <=5 thorough; tf.data, native iterator and tfrec decoder are recording/contract stubs "
+            "(replays use the real TF and native iterator)",
+            "DESIGN.md 3/C12"),
+    "C16": ("symx",
+            "symbolic execution of the real hash_checksums with z3 (symbolic file size, arbitrary short reads)",
+            "For a file of symbolic size and every short-read schedule within the read bound, z3 proves that each configured "
+            "hash object is fed exactly the bytes [0,S) once, in order, and that digests are returned in the configured order; "
+            "algorithm identity and stored-tuple provenance are concrete anchors.",
+            "z3; <=5 read calls quick / <=7 thorough; hashlib/xxhash trusted; OS read contract",
+            "DESIGN.md 3/C16"),
 }
 
 PENDING_REASON = "check not built yet in this round (work in progress; see DESIGN.md section 3 for the planned encoding)"
